@@ -56,20 +56,28 @@ def load_snapshot(path: str):
 
 
 class OneShotExit:
-    """Stands in for the engine's exit Event: reports 'not set' exactly once per arm()."""
+    """Stands in for the engine's exit Event: reports 'not set' from arm() until the engine has finished one iteration of its loop
+    (the engine's own end-of-iteration hook `_loop_func` calls done()), however often the iteration asks."""
 
     def __init__(self) -> None:
         self.armed = False
         self.really_set = False
+        self.asked = 0
 
     def arm(self) -> None:
         self.armed = True
+        self.asked = 0
+
+    def done(self) -> None:
+        self.armed = False
 
     def is_set(self) -> bool:
         if self.really_set:
             return True
         if self.armed:
-            self.armed = False
+            self.asked += 1
+            if self.asked > 100000:
+                raise HarnessError("the engine's loop does not reach the end of an iteration (its _loop_func hook is never called)")
             return False
         return True
 
@@ -117,6 +125,14 @@ class SteppedEngine:
         self.exit = OneShotExit()
         gsocket._socket = self.sock
         gsocket._exit_event = self.exit
+        orig_loop_func = gsocket._loop_func
+
+        def loop_func():
+            try:
+                return orig_loop_func()
+            finally:
+                self.exit.done()
+        gsocket._loop_func = loop_func
         self._timer = None
         self._timer_when = None
         self.steps = 0
